@@ -190,12 +190,16 @@ class RegEngine(Engine):
     for op in case:
       if op[0] != 'reg':
         if op[0] == 'interactive_block':
+          was = bool(cfg._INTERACTIVE_MODE)  # pylint: disable=protected-access
           try:
             with cfg.interactive_mode():
               if op[1]:
                 raise KeyError('boom')
           except KeyError:
             pass
+          if bool(cfg._INTERACTIVE_MODE) != was:  # pylint: disable=protected-access
+            fails.append(('interactive-mode-not-restored', 'interactive_mode() block entered with %r, left (%s) with %r' %
+                          (was, 'by an exception' if op[1] else 'normally', bool(cfg._INTERACTIVE_MODE))))  # pylint: disable=protected-access
         elif op[0] == 'enter_interactive':
           cfg.enter_interactive_mode()
         elif op[0] == 'exit_interactive':
@@ -209,6 +213,7 @@ class RegEngine(Engine):
       req = op[1]
       obj = self.obj_of(mod, req['shape'])
       before = [k for k, _ in cfg._REGISTRY.items()]  # pylint: disable=protected-access
+      was_locked = bool(cfg.config_is_locked())
       allow = req['allow'] or None
       deny = req['deny'] or None
       if not req['lists_ok']:
@@ -231,6 +236,10 @@ class RegEngine(Engine):
           exc = 'ValueError'     # the rejection message itself needs fn.__name__: still a rejection of the bad list
       after = [k for k, _ in cfg._REGISTRY.items()]  # pylint: disable=protected-access
       keys = [k for k in after if k not in builtin_keys]
+      if was_locked and exc is None:
+        # no registration of any kind while the configuration is locked (also not of an object registered before)
+        fails.append(('registration-while-locked-accepted', '%s(%s, name=%r, module=%r) returned although the config is locked' %
+                      (req['api'], req['shape'], req['name'], req['module'])))
       if exc:
         obs.append([T('Rejected', exc), keys])
         tags.append('rejected:' + exc)
